@@ -95,6 +95,15 @@ def gen(rng, tier):
             ops.append(['connect', p, ns])
         else:
             ops.append(['sdisc', p, ns])
+    if npeers > 1 and rng.random() < 0.3:
+        # "follow" rooms: a client sits in the room named after ANOTHER
+        # client's session id and then goes away while that client has
+        # acknowledgements outstanding
+        for _ in range(rng.randrange(1, 3)):
+            p, q = rng.sample(range(npeers), 2)
+            ns = rng.choice(nss)
+            at = rng.randrange(2 * npeers, len(ops) + 1)
+            ops.insert(at, ['follow', p, q, ns])
     if rng.random() < 0.3:
         # the application kicks a client that went silent, after its ping
         # has expired but before the reader gave up: engine.io notices
@@ -410,6 +419,24 @@ def _run(case, cfg, w):
                          e.get('site')),
                       '%s@%s' % ((e.get('exc') or '').split(':')[0],
                                  e.get('site')))
+        elif k == 'follow':
+            _, p, q, ns = op
+            sp, sq = sc.sid(p, ns), sc.sid(q, ns)
+            if sp and sq:
+                # (an emit with a callback to q while p sits in q's room
+                # would have two recipients - unsupported; p therefore
+                # leaves again, by disconnecting, before anything else)
+                w.api('s', 'enter_room', sp, sq, namespace=ns)
+                w.settle()
+                w.rec.count('app.follow_room')
+                if derive(case['seed'], 'follow_end', opi) % 2:
+                    sc.forget(p, ns)
+                    sc.peers[p].send_pkt(sio.DISCONNECT, ns, None, None)
+                else:
+                    sc.forget(p, ns)
+                    w.api('s', 'disconnect', sp, namespace=ns)
+                w.settle()
+                end_sid(sp)
         elif k == 'adv':
             w.advance(op[1])
         elif k == 'disc':
